@@ -1,10 +1,15 @@
-"""C07 (see DESIGN.md section 6)."""
+"""C07 -- build-file restraints hold for every residue they select."""
 from vlib.framework import PUnit, LUnit, BUnit
-from bounded import b_coords as B
-
-P_UNITS = []
+from contracts import restraints as R
+from bounded import b_coords
 
 
 def build(tier, seed):
-    units = list(P_UNITS) + [u for u in B.UNITS if u.name in "c07-restraints".split()]
-    return {"units": units, "level": "other", "notes": "bounded stand-in (executable contracts on the real functions); see evidence units"}
+    units = [
+        PUnit("geometric-predicates", [R.IN_SPHERE, R.IN_RECTANGLE, R.IN_CYLINDER], R.REG),
+        PUnit("all-restraints-of-a-residue", [R.FULFILL_C], R.REG),
+        PUnit("direction-restriction", [R.IS_RESTRICTED], R.REG),
+        PUnit("distance-milestones", [R.MILESTONES_C], R.REG),
+        LUnit("min-image-distance-unique", R.lemma_min_image_unique),
+    ] + [u for u in b_coords.UNITS if u.name == "c07-restraints"]
+    return {"units": units, "level": "other", "notes": "pyvc + bounded"}
